@@ -1,6 +1,193 @@
-//! C06 — not implemented yet.
-use crate::core::Ctx;
-use serde_json::Value;
+//! C06 — responses depend on the byte stream, not on how TCP segmented it (DESIGN §5 C06).
+//!
+//! Schedule space: streams (single requests and ordered pairs of a request menu) × every set of cut positions of
+//! size 0, 1, 2 (3 on short streams in the thorough tier).  Oracle: the response sequence must equal that of the
+//! per-request segmentation of the same stream.  The loop model is bound to the real `Session::manage` by
+//! replaying 1-cut (and 2-cut) schedules of the shortest streams over loopback TCP.
 
-pub fn run(ctx: &mut Ctx) { ctx.machinery_error("C06 engine not implemented".into()); }
-pub fn replay(ctx: &mut Ctx, _case: &Value) { ctx.machinery_error("C06 engine not implemented".into()); }
+use crate::core::{combinations, esc, Ctx};
+use crate::engines::c05::{alphabet, Req};
+use crate::wire::{self, End};
+use serde_json::{json, Value};
+
+const MENU: [&str; 10] = ["get-hit", "get-404", "get-params", "post-3", "post-nul-first", "post-buffer+1", "get-headers", "head-hit", "put-short", "get-close"];
+
+struct Stream { names: Vec<&'static str>, bytes: Vec<u8>, /* per request: (start, head_len, total_len, request_line_len) */ layout: Vec<(usize, usize, usize, usize)>, heads: Vec<bool>, body_kinds: Vec<&'static str> }
+
+fn layout_of(r: &Req) -> (usize, usize, usize) {
+    let head = r.bytes.windows(4).position(|w| w == b"\r\n\r\n").map(|p| p + 4).unwrap_or(r.bytes.len());
+    let rl = r.bytes.windows(2).position(|w| w == b"\r\n").map(|p| p + 2).unwrap_or(head);
+    (head, r.bytes.len(), rl)
+}
+
+fn body_kind(r: &Req) -> &'static str {
+    let (head, total, _) = layout_of(r);
+    if total == head { "none" } else if r.bytes[head] == 0 { "nul-first" } else if total > 1024 { "spans-buffer" } else { "plain" }
+}
+
+fn streams(alpha: &[Req]) -> Vec<Stream> {
+    let menu: Vec<&Req> = MENU.iter().map(|n| alpha.iter().find(|r| r.name == *n).expect("menu request")).collect();
+    let mut out = vec![];
+    let mk = |rs: &[&Req]| {
+        let mut bytes = vec![]; let mut layout = vec![];
+        for r in rs { let (h, t, rl) = layout_of(r); layout.push((bytes.len(), h, t, rl)); bytes.extend_from_slice(&r.bytes); }
+        Stream { names: rs.iter().map(|r| r.name).collect(), bytes, layout, heads: rs.iter().map(|r| r.head).collect(), body_kinds: rs.iter().map(|r| body_kind(r)).collect() }
+    };
+    for a in &menu { out.push(mk(&[a])) }
+    for a in &menu { for b in &menu { out.push(mk(&[a, b])) } }
+    out
+}
+
+/// where a cut (between byte p-1 and byte p) falls
+fn location(s: &Stream, p: usize) -> (usize, &'static str) {
+    for (ri, &(start, head, total, rl)) in s.layout.iter().enumerate() {
+        if p == start && ri > 0 { return (ri, "request-boundary") }
+        if p > start && p < start + total {
+            let o = p - start;
+            return (ri, if o < rl { "request-line" } else if o + 4 > head && o < head { "head-crlf" } else if o < head { "header" } else if o == head { "head|body" } else { "body" })
+        }
+    }
+    (s.layout.len() - 1, "end")
+}
+
+/// candidate cut positions: everything for short streams; structural neighbourhoods for long ones
+fn candidates(s: &Stream) -> Vec<usize> {
+    let n = s.bytes.len();
+    if n <= 160 { return (1..n).collect() }
+    let mut v: Vec<usize> = vec![];
+    for &(start, head, total, _) in &s.layout {
+        for o in 1..48.min(total) { v.push(start + o) }
+        for d in 0..=3 { v.push(start + head - d.min(head - 1)); v.push((start + head + d).min(start + total)) }
+        for d in 0..=2 { if total > 1024 + d { v.push(start + 1024 + d); } if total > 1024 { v.push(start + 1024 - d) } }
+        for d in 0..=3 { if total > d + 1 { v.push(start + total - d) } if start >= d + 1 && start > 0 { v.push(start + d); } }
+        let mut o = head + 97; while o < total { v.push(start + o); o += 97 }
+    }
+    v.retain(|p| *p > 0 && *p < n);
+    v.sort(); v.dedup();
+    v
+}
+
+fn segments_of(bytes: &[u8], cuts: &[usize]) -> Vec<Vec<u8>> {
+    let mut out = vec![]; let mut prev = 0;
+    for &c in cuts { out.push(bytes[prev..c].to_vec()); prev = c }
+    out.push(bytes[prev..].to_vec());
+    out
+}
+
+fn classify_cuts(s: &Stream, cuts: &[usize]) -> (String, &'static str) {
+    // (1) a cut inside any head dominates
+    for &c in cuts {
+        let (ri, loc) = location(s, c);
+        if matches!(loc, "request-line" | "header" | "head-crlf") { return (format!("{}{loc}", if ri > 0 { "second-" } else { "" }), s.body_kinds[ri]) }
+    }
+    // (2) some segment contains the end of a head and at least one byte of the following request
+    let mut bounds = vec![0]; bounds.extend_from_slice(cuts); bounds.push(s.bytes.len());
+    for ri in 0..s.layout.len().saturating_sub(1) {
+        let (start, head, total, _) = s.layout[ri];
+        let head_end = start + head; let next = start + total;
+        for w in bounds.windows(2) { if w[0] < head_end && w[1] > next { return ("coalesced".into(), s.body_kinds[ri]) } }
+    }
+    // (3) the first cut
+    match cuts.first() {
+        None => ("uncut".into(), s.body_kinds[0]),
+        Some(&c) => { let (ri, loc) = location(s, c); (format!("{}{loc}", if ri > 0 && loc != "request-boundary" { "second-" } else { "" }), s.body_kinds[ri]) }
+    }
+}
+
+fn check_schedule(ctx: &mut Ctx, router: &ohkami::__verif__::VerifRouter, s: &Stream, expected: &(Vec<Vec<u8>>, End), cuts: &[usize]) {
+    ctx.transitions += cuts.len() as u64 + 1;
+    let segs = segments_of(&s.bytes, cuts);
+    let obs = wire::run_mem(router, &segs);
+    let (got, leftover) = wire::split_responses(&obs.written, &s.heads);
+    let (loc, bk) = classify_cuts(s, cuts);
+    let same_end = std::mem::discriminant(&obs.end) == std::mem::discriminant(&expected.1);
+    if got == expected.0 && leftover.is_empty() && same_end {
+        let inside = cuts.iter().any(|&c| location(s, c).1 != "request-boundary");
+        ctx.pass(&format!("{loc}:{bk}:{}resp", got.len()), inside || cuts.is_empty() && s.layout.len() > 1, inside);
+        return
+    }
+    // symptom
+    let k = (0..expected.0.len().max(got.len())).find(|&k| expected.0.get(k) != got.get(k)).unwrap_or(got.len());
+    let symptom = if !leftover.is_empty() && k >= got.len() { "malformed-response".to_string() } else {
+        match (expected.0.get(k), got.get(k)) {
+            (Some(e), Some(g)) => { let (se, sg) = (wire::status_of(e), wire::status_of(g)); if se != sg { format!("refused({sg})") } else { "wrong-response".into() } }
+            (Some(_), None) => match &obs.end { End::WaitingMidRequest(_) => "stall".into(), End::Panic(p) => format!("panic:{p}"), End::ServerClosed { .. } => "missing-response:session-closed".into(), _ => "missing-response".into() },
+            (None, Some(_)) => "extra-response".into(),
+            (None, None) => format!("end-differs({:?})", std::mem::discriminant(&obs.end)),
+        }
+    };
+    ctx.violation(&format!("C06/{loc}/{bk}/{symptom}"), true, || json!({"stream": s.names, "cuts": cuts, "segments": segs.iter().map(|x| esc(&x[..x.len().min(60)])).collect::<Vec<_>>(),
+        "expected_statuses": expected.0.iter().map(|r| wire::status_of(r)).collect::<Vec<_>>(), "observed_statuses": got.iter().map(|r| wire::status_of(r)).collect::<Vec<_>>(),
+        "first_difference_at_response": k, "observed_response": got.get(k).map(|g| esc(&g[..g.len().min(300)])), "expected_response": expected.0.get(k).map(|g| esc(&g[..g.len().min(300)])), "end": format!("{:?}", obs.end), "expected_end": format!("{:?}", expected.1)}));
+}
+
+fn expected_of(router: &ohkami::__verif__::VerifRouter, s: &Stream) -> (Vec<Vec<u8>>, End) {
+    let per_request: Vec<Vec<u8>> = s.layout.iter().map(|&(start, _, total, _)| s.bytes[start..start + total].to_vec()).collect();
+    let obs = wire::run_mem(router, &per_request);
+    (wire::split_responses(&obs.written, &s.heads).0, obs.end)
+}
+
+pub fn run(ctx: &mut Ctx) {
+    crate::app::pin_clock();
+    let router = wire::echo_router();
+    let alpha = alphabet();
+    let all = streams(&alpha);
+    let quick = ctx.quick();
+    // ---- binding: 1-cut (thorough: also 2-cut) schedules of the shortest streams over real TCP ----
+    let tcp = wire::TcpBinding::new();
+    let mut by_len: Vec<&Stream> = all.iter().collect();
+    by_len.sort_by_key(|s| s.bytes.len());
+    let bind_streams: Vec<&Stream> = by_len.iter().copied().filter(|s| s.layout.len() == 1).take(if quick { 3 } else { 5 })
+        .chain(by_len.iter().copied().filter(|s| s.layout.len() == 2).take(if quick { 2 } else { 5 })).collect();
+    for s in &bind_streams {
+        let n = s.bytes.len();
+        let mut scheds: Vec<Vec<usize>> = vec![vec![]];
+        for p in 1..n { if quick && p % 3 != 0 && location(s, p).1 == "header" { continue } scheds.push(vec![p]) }
+        if !quick { for c in combinations(n - 1, 2) { if (c[0] * 7 + c[1]) % 23 == 0 { scheds.push(vec![c[0] + 1, c[1] + 1]) } } }
+        for cuts in scheds {
+            if !ctx.mine() { continue }
+            match wire::conform(&router, &tcp, &segments_of(&s.bytes, &cuts)) {
+                Ok(()) => ctx.traces_validated += 1,
+                Err(e) => ctx.machinery_error(format!("session-loop model does not conform to Session::manage on stream {:?} cuts {:?}: {e}", s.names, cuts)),
+            }
+        }
+    }
+    if !ctx.machinery_errors.is_empty() { return }
+    // ---- enumeration, deviation-bounded: 0 cuts, 1 cut, 2 cuts (, 3 cuts) ----
+    let mut completed = [0u64; 4];
+    for s in &all {
+        let expected = expected_of(&router, s);
+        let n = s.bytes.len();
+        let cand = candidates(s);
+        if ctx.mine() { check_schedule(ctx, &router, s, &expected, &[]); completed[0] += 1; ctx.states += 1;
+            for p in 1..n { check_schedule(ctx, &router, s, &expected, &[p]); completed[1] += 1; ctx.states += 1; } }
+        // 2 cuts from the candidate positions, sharded by the first cut
+        for (i, &a) in cand.iter().enumerate() {
+            if !ctx.mine() { continue }
+            if ctx.out_of_time() { break }
+            for &b in &cand[i + 1..] {
+                check_schedule(ctx, &router, s, &expected, &[a, b]); completed[2] += 1; ctx.states += 1;
+                if !quick && n <= 120 { for &c in cand.iter().filter(|&&c| c > b) { check_schedule(ctx, &router, s, &expected, &[a, b, c]); completed[3] += 1; ctx.states += 1; } }
+            }
+        }
+    }
+    for (i, c) in completed.iter().enumerate() { ctx.extra.insert(format!("sum_schedules_with_{i}_cuts"), json!(c)); }
+    ctx.extra.insert("rule".into(), json!("case = (stream, set of cut positions); the next segment is delivered only when the session is Pending inside a read; non-trivial = at least one cut strictly inside a request, or two requests coalesced into one segment; collision = a cut strictly inside a request"));
+    ctx.extra.insert("bounds".into(), json!({"menu": MENU, "streams": all.len(), "cuts": if quick { "0,1 (all positions), 2 (candidate positions) on every stream" } else { "0,1 (all positions), 2 (candidate positions) on every stream; 3 on streams <= 120 bytes" },
+        "candidate_positions": "all positions for streams <= 160 bytes; otherwise the first 48 bytes of each request, +-3 around the end of each head, +-2 around the 1 KiB buffer end, +-3 around each request boundary, every 97th body byte",
+        "tcp_binding": if quick { "0- and 1-cut schedules of the 3 shortest single requests and 2 shortest pairs" } else { "0-, 1- and a 1/23 slice of 2-cut schedules of the 5 shortest single requests and 5 shortest pairs" }}));
+    ctx.sample(|| json!({"stream": ["post-3"], "cuts": [70]}));
+    ctx.sample(|| json!({"stream": ["get-hit", "put-short"], "cuts": []}));
+}
+
+pub fn replay(ctx: &mut Ctx, case: &Value) {
+    crate::app::pin_clock();
+    let router = wire::echo_router();
+    let alpha = alphabet();
+    let all = streams(&alpha);
+    let names: Vec<String> = case["stream"].as_array().expect("stream").iter().map(|v| v.as_str().unwrap().to_string()).collect();
+    let s = all.iter().find(|s| s.names.iter().map(|n| n.to_string()).collect::<Vec<_>>() == names).expect("unknown stream");
+    let cuts: Vec<usize> = case["cuts"].as_array().map(|a| a.iter().map(|v| v.as_u64().unwrap() as usize).collect()).unwrap_or_default();
+    let expected = expected_of(&router, s);
+    check_schedule(ctx, &router, s, &expected, &cuts);
+}
